@@ -9,7 +9,9 @@
 From stdpp Require Import list.
 From HV Require Export Events.
 
-Record case12 := { h_npids : nat; h_hist : list hop; h_obs : list (list nat) }.
+Record case12 := { h_remote : bool; h_npids : nat; h_hist : list hop;
+                   h_obs : list (list nat);     (* per local actor: the user events received *)
+                   h_robs : list (list nat) }.  (* per id: the user events given to the remote for (foreign, id) *)
 Record case12c := { k_nsubs : nat; k_counts : list nat;
                     k_late : option (list nat); k_leave : option (list nat);
                     k_late_at : nat * nat; k_leave_at : nat * nat;   (* (source, after how many of its events) *)
@@ -20,7 +22,9 @@ Record case09 := { u_nmon : nat; u_ops : list wlabel;
 Inductive case := K12 (c : case12) | K12c (c : case12c) | K09 (c : case09).
 
 (** ** correspondence: the machine computes what the implementation showed *)
-Definition corr12 (c : case12) : bool := bool_decide (model12 (h_npids c) (h_hist c) = h_obs c).
+Definition corr12 (c : case12) : bool :=
+  bool_decide (h_npids c ≤ 50) && wf12 (h_npids c) (seq 0 (h_npids c)) (h_hist c) &&
+  bool_decide (model12 (h_remote c) (h_npids c) (h_hist c) = (h_obs c, h_robs c)).
 
 Definition corr12c (c : case12c) : bool :=
   let log0 := default [] (head (k_obs c)) in
@@ -45,7 +49,7 @@ Definition corr09 (c : case09) : bool :=
   forallb (λ x, perm_eqb x.1.2 x.2.2) (zip m (u_logs c)).
 
 (** ** oracle: the property's predicate on what the implementation showed *)
-Definition oracle12 (c : case12) : bool := oracle12_on (h_npids c) (h_hist c) (h_obs c).
+Definition oracle12 (c : case12) : bool := oracle12_on (h_remote c) (h_npids c) (h_hist c) (h_obs c) (h_robs c).
 Definition oracle12c (c : case12c) : bool :=
   oracle12c_on (k_nsubs c) (k_counts c) (k_late c) (k_leave c) (k_late_at c) (k_leave_at c) (k_obs c).
 Definition oracle09 (c : case09) : bool :=
@@ -62,24 +66,54 @@ Definition oracle (c : case) : bool :=
    subscribed, other object (D5); 3 unsubscribe through another object than
    the one subscribed with (D5); 4 unsubscribe while not subscribed; 5 event
    with two or more subscribers; 6 event with no subscriber; 7 subscribe
-   again after an unsubscribe; 8 event delivered after a re-subscription *)
-Fixpoint branches12_run (cur : list (nat * nat)) (gone : list nat) (h : list hop) : list nat :=
+   again after an unsubscribe; 8 event delivered after a re-subscription;
+   9 stop of a subscribed actor; 14 subscription of an actor spawned again
+   under the id of one that was dropped; 15 two or more events to such a
+   subscriber; 16 subscription of a PID nobody is registered under; 17 local
+   and foreign PID with the same id both subscribed; 18 unsubscription of one
+   of such a pair; 19 event to a foreign subscriber.
+   [cur]: subscribed (PID value, object); [gone]: values unsubscribed before;
+   [dead]: stopped ids; [dropped]: ids that were dropped as unreachable;
+   [again]: respawned-and-resubscribed ids with the number of events since *)
+Fixpoint branches12_run (cur : list (nat * nat)) (gone dead dropped : list nat) (again : list (nat * nat))
+    (h : list hop) : list nat :=
+  let twin p := if decide (p < 50) then 50 + p else p - 50 in
   match h with
   | [] => []
   | HSub p o :: h' =>
+      (if decide (p ∈ dead) then [16] else []) ++
+      (if decide (twin p ∈ cur.*1) then [17] else []) ++
       match filter (λ x, x.1 = p) cur with
-      | [] => (if decide (p ∈ gone) then [7] else []) ++ branches12_run (cur ++ [(p, o)]) gone h'
-      | x :: _ => (if decide (x.2 = o) then [1] else [2]) ++ branches12_run cur gone h'
+      | [] => (if decide (p ∈ gone) then [7] else []) ++
+              (if decide (p ∈ dropped ∧ p ∉ dead) then [14] else []) ++
+              branches12_run (cur ++ [(p, o)]) gone dead dropped
+                (if decide (p ∈ dropped ∧ p ∉ dead) then (p, 0) :: again else again) h'
+      | x :: _ => (if decide (x.2 = o) then [1] else [2]) ++ branches12_run cur gone dead dropped again h'
       end
   | HUnsub p o :: h' =>
+      (if decide (twin p ∈ cur.*1 ∧ p ∈ cur.*1) then [18] else []) ++
       match filter (λ x, x.1 = p) cur with
-      | [] => 4 :: branches12_run cur gone h'
+      | [] => 4 :: branches12_run cur gone dead dropped again h'
       | x :: _ => (if decide (x.2 = o) then [] else [3]) ++
-                  branches12_run (filter (λ x, x.1 ≠ p) cur) (p :: gone) h'
+                  branches12_run (filter (λ x, x.1 ≠ p) cur) (p :: gone) dead dropped
+                    (filter (λ x, x.1 ≠ p) again) h'
       end
   | HEv _ :: h' =>
-      (if decide (2 ≤ length cur) then [5] else []) ++ (if decide (cur = []) then [6] else []) ++
-      (if decide (Exists (λ x, x.1 ∈ gone) cur) then [8] else []) ++ branches12_run cur gone h'
+      let cur' := filter (λ x, x.1 ∉ dead) cur in
+      (if decide (2 ≤ length cur') then [5] else []) ++ (if decide (cur' = []) then [6] else []) ++
+      (if decide (Exists (λ x, x.1 ∈ gone) cur') then [8] else []) ++
+      (if decide (Exists (λ x, 50 ≤ x.1) cur') then [19] else []) ++
+      (if decide (Exists (λ x, 1 ≤ x.2) again) then [15] else []) ++
+      branches12_run cur' gone dead (dropped ++ (filter (λ x, x.1 ∈ dead) cur).*1)
+        ((λ x, (x.1, S x.2)) <$> again) h'
+  | HStop p :: h' =>
+      (if decide (p ∈ cur.*1) then [9] else []) ++
+      let dead' := p :: dead in
+      branches12_run (filter (λ x, x.1 ∉ dead') cur) gone dead' (dropped ++ (filter (λ x, x.1 ∈ dead') cur).*1)
+        (filter (λ x, x.1 ≠ p) again) h'
+  | HSpawn p :: h' =>
+      let dead' := filter (λ i, i ≠ p) dead in
+      branches12_run (filter (λ x, x.1 ∉ dead') cur) gone dead' (dropped ++ (filter (λ x, x.1 ∈ dead') cur).*1) again h'
   end.
 
 (* C12 concurrent: 20 + number of broadcasters; 11 late subscriber got a
@@ -119,7 +153,7 @@ Definition branches09 (c : case09) : list nat :=
 
 Definition branches (c : case) : list nat :=
   match c with
-  | K12 c => remove_dups (branches12_run [] [] (h_hist c))
+  | K12 c => remove_dups (branches12_run [] [] [] [] [] (h_hist c))
   | K12c c => branches12c c
   | K09 c => (λ n, 30 + n) <$> branches09 c
   end.
@@ -133,12 +167,23 @@ Definition report (cs : list case) : list nat * list nat * list (list nat) :=
 (** ** smoke tests of the executable definitions *)
 (** ** smoke tests of the executable definitions *)
 Example report_smoke12 :
-  report [ K12 {| h_npids := 2; h_hist := [HSub 0 0; HSub 0 1; HEv 1; HUnsub 0 1; HEv 2];
-                  h_obs := [[1]; []] |};
-           (* what the un-repaired code shows (D5) *)
-           K12 {| h_npids := 2; h_hist := [HSub 0 0; HSub 0 1; HEv 1; HUnsub 0 1; HEv 2];
-                  h_obs := [[1; 1; 2]; []] |} ]
-  = ([1], [1], [[2; 3; 6]; [2; 3; 6]]).
+  report [ K12 {| h_remote := false; h_npids := 2;
+                  h_hist := [HSub 0 0; HSub 0 1; HEv 1; HUnsub 0 1; HEv 2];
+                  h_obs := [[1]; []]; h_robs := [[]; []] |};
+           (* what the code keyed by *PID showed (D5) *)
+           K12 {| h_remote := false; h_npids := 2;
+                  h_hist := [HSub 0 0; HSub 0 1; HEv 1; HUnsub 0 1; HEv 2];
+                  h_obs := [[1; 1; 2]; []]; h_robs := [[]; []] |};
+           (* stop, respawn, subscribe again; the same id behind a foreign address *)
+           K12 {| h_remote := true; h_npids := 2;
+                  h_hist := [HSub 0 0; HSub 50 0; HEv 1; HStop 0; HEv 2; HSpawn 0; HEv 3; HSub 0 1; HEv 4; HEv 5;
+                             HUnsub 50 0; HEv 6];
+                  h_obs := [[1; 4; 5; 6]; []]; h_robs := [[1; 2; 3; 4; 5]; []] |};
+           (* a fan-out that forgets to clear its list of dropped subscribers loses event 5 *)
+           K12 {| h_remote := false; h_npids := 1;
+                  h_hist := [HSub 0 0; HStop 0; HSpawn 0; HSub 0 0; HEv 4; HEv 5];
+                  h_obs := [[4]]; h_robs := [[]] |} ]
+  = ([1; 3], [1; 3], [[2; 3; 6]; [2; 3; 6]; [9; 17; 14; 5; 19; 18; 15]; [9; 14; 15]]).
 Proof. by vm_compute. Qed.
 
 Example report_smoke12c :
